@@ -532,15 +532,15 @@ theorem digest_wrong_response_401 (P : Prims) (cfg : DigestCfg) (method : Str) (
 
 /-! ### an RFC 2617 client, from the header text -/
 
-/-- the constructor applied to a wire header that decodes to `Digest k₁="v₁", k₂="v₂", …` sees exactly those fields
-    (arbitrary values — quotes, backslashes, commas, any code point — in the standard quoted-string escaping) -/
-theorem parseAuth_serialised (P : Prims) (hw : Str) (kvs : List (Str × Str)) (hk : ∀ kv ∈ kvs, GoodKey kv.1)
-    (hm : digestMatches hw = true) (hd : tryDecodeHeader P hw = some (cs! "Digest " ++ serialise kvs)) :
-    parseAuth P hw = validateFields (fieldsOf kvs) := by
-  have hsp : split1 ' ' (cs! "Digest " ++ serialise kvs) = some (cs! "Digest", serialise kvs) :=
+/-- the constructor applied to a wire header that decodes to `Digest f₁, f₂, …` — each field `k="escaped value"`
+    (arbitrary value: quotes, backslashes, commas, any code point) or `k=token` — sees exactly those fields -/
+theorem parseAuth_serialised (P : Prims) (hw : Str) (fs : List Fld) (hk : ∀ f ∈ fs, f.Good)
+    (hm : digestMatches hw = true) (hd : tryDecodeHeader P hw = some (cs! "Digest " ++ serialise fs)) :
+    parseAuth P hw = validateFields (fieldsOf (fs.map Fld.pair)) := by
+  have hsp : split1 ' ' (cs! "Digest " ++ serialise fs) = some (cs! "Digest", serialise fs) :=
     split1_of_append (cs! "Digest") _ (by decide)
   unfold parseAuth
-  simp only [hm, not_true_eq_false, if_false, hd, hsp, parse_serialise kvs hk]
+  simp only [hm, not_true_eq_false, if_false, hd, hsp, parse_serialise fs hk]
 
 /-- **An RFC 2617 client, end to end.**  The client writes its fields in any order as `name="escaped value"`; the
     bytes reach the tool as `hw` and decode (accepted charset, else ISO-8859-1) to that text.  If the fields pass the
@@ -548,36 +548,95 @@ theorem parseAuth_serialised (P : Prims) (hw : Str) (kvs : List (Str × Str)) (h
     key with an unexpired timestamp, and the response is the RFC digest for the **stored** HA1 and the request's
     method, the handler runs with `login = u`. -/
 theorem digest_rfc2617_client (P : Prims) (cfg : DigestCfg) (method : Str) (now : Int) (hw : Str)
-    (kvs : List (Str × Str)) (u ha1 ts : Str) (t : Int)
-    (hk : ∀ kv ∈ kvs, GoodKey kv.1) (hm : digestMatches hw = true)
-    (hd : tryDecodeHeader P hw = some (cs! "Digest " ++ serialise kvs))
-    (hv : Valid (fieldsOf kvs)) (hu : (fieldsOf kvs).username = some u)
-    (hq : (fieldsOf kvs).qop = none ∨ (fieldsOf kvs).qop = some (cs! "auth"))
+    (fs : List Fld) (u ha1 ts : Str) (t : Int)
+    (hk : ∀ f ∈ fs, f.Good) (hm : digestMatches hw = true)
+    (hd : tryDecodeHeader P hw = some (cs! "Digest " ++ serialise fs))
+    (hv : Valid (fieldsOf (fs.map Fld.pair))) (hu : (fieldsOf (fs.map Fld.pair)).username = some u)
+    (hq : (fieldsOf (fs.map Fld.pair)).qop = none ∨ (fieldsOf (fs.map Fld.pair)).qop = some (cs! "auth"))
     (hget : getHa1 P cfg u = some ha1)
-    (hnonce : (fieldsOf kvs).nonce = some (synthesizeNonce P cfg.realm cfg.key ts)) (hts : ':' ∉ ts)
+    (hnonce : (fieldsOf (fs.map Fld.pair)).nonce = some (synthesizeNonce P cfg.realm cfg.key ts)) (hts : ':' ∉ ts)
     (hint : pyInt ts = some t) (hfresh : t + 600 > now)
-    (hresp : (fieldsOf kvs).response = some (rfcDigest P (fieldsOf kvs) method ha1)) :
+    (hresp : (fieldsOf (fs.map Fld.pair)).response = some (rfcDigest P (fieldsOf (fs.map Fld.pair)) method ha1)) :
     digestAuth P cfg method now (some hw) = .grant u :=
-  digest_complete P cfg method now hw (fieldsOf kvs) u ha1 ts t
-    (by rw [parseAuth_serialised P hw kvs hk hm hd]; exact (validateFields_ok_iff _ _).mpr ⟨rfl, hv⟩)
+  digest_complete P cfg method now hw (fieldsOf (fs.map Fld.pair)) u ha1 ts t
+    (by rw [parseAuth_serialised P hw fs hk hm hd]; exact (validateFields_ok_iff _ _).mpr ⟨rfl, hv⟩)
     hu hq hget hnonce hts hint hfresh hresp
 
 /-- … and with any other response (or an unknown user) the same client gets the plain 401 challenge -/
 theorem digest_rfc2617_client_wrong (P : Prims) (cfg : DigestCfg) (method : Str) (now : Int) (hw : Str)
-    (kvs : List (Str × Str)) (hk : ∀ kv ∈ kvs, GoodKey kv.1) (hm : digestMatches hw = true)
-    (hd : tryDecodeHeader P hw = some (cs! "Digest " ++ serialise kvs))
-    (hv : Valid (fieldsOf kvs)) (hq : (fieldsOf kvs).qop ≠ some (cs! "auth-int"))
-    (hw' : ∀ ha1, getHa1 P cfg (fmtOpt (fieldsOf kvs).username) = some ha1 →
-      fmtOpt (fieldsOf kvs).response ≠ rfcDigest P (fieldsOf kvs) method ha1) :
+    (fs : List Fld) (hk : ∀ f ∈ fs, f.Good) (hm : digestMatches hw = true)
+    (hd : tryDecodeHeader P hw = some (cs! "Digest " ++ serialise fs))
+    (hv : Valid (fieldsOf (fs.map Fld.pair))) (hq : (fieldsOf (fs.map Fld.pair)).qop ≠ some (cs! "auth-int"))
+    (hw' : ∀ ha1, getHa1 P cfg (fmtOpt (fieldsOf (fs.map Fld.pair)).username) = some ha1 →
+      fmtOpt (fieldsOf (fs.map Fld.pair)).response ≠ rfcDigest P (fieldsOf (fs.map Fld.pair)) method ha1) :
     digestAuth P cfg method now (some hw) = respond401 P cfg now false :=
-  digest_wrong_response_401 P cfg method now hw (fieldsOf kvs)
-    (by rw [parseAuth_serialised P hw kvs hk hm hd]; exact (validateFields_ok_iff _ _).mpr ⟨rfl, hv⟩) hq hw'
+  digest_wrong_response_401 P cfg method now hw (fieldsOf (fs.map Fld.pair))
+    (by rw [parseAuth_serialised P hw fs hk hm hd]; exact (validateFields_ok_iff _ _).mpr ⟨rfl, hv⟩) hq hw'
 
 /-- non-vacuity: a field list with awkward values survives serialise → parse -/
 example : parseKeqvList (parseHttpList (serialise
-    [(cs! "username", cs! "bo\"b, \\x"), (cs! "realm", cs! "a,b=c"), (cs! "uri", []), (cs! "nc", cs! "1")])) =
-    .ok [(cs! "username", cs! "bo\"b, \\x"), (cs! "realm", cs! "a,b=c"), (cs! "uri", []), (cs! "nc", cs! "1")] := by
+    [.quoted (cs! "username") (cs! "bo\"b, \\x"), .quoted (cs! "realm") (cs! "a,b=c"), .quoted (cs! "uri") [],
+     .token (cs! "qop") (cs! "auth"), .token (cs! "nc") (cs! "00000001")])) =
+    .ok [(cs! "username", cs! "bo\"b, \\x"), (cs! "realm", cs! "a,b=c"), (cs! "uri", []), (cs! "qop", cs! "auth"),
+      (cs! "nc", cs! "00000001")] := by
   decide +kernel
+
+/-! ### the wire: ISO-8859-1 configuration -/
+
+theorem latin1_roundtrip : ∀ (h : Str), (∀ c ∈ h, c.toNat < 256) → (latin1Encode h).map latin1Decode = some h
+  | [], _ => rfl
+  | c :: cs, hl => by
+    have hc : c.toNat < 256 := hl c (by simp)
+    have ih := latin1_roundtrip cs (fun d hd => hl d (List.mem_cons_of_mem _ hd))
+    simp only [latin1Encode, hc, if_true]
+    cases he : latin1Encode cs with
+    | none => simp [he] at ih
+    | some b =>
+      simp only [he, Option.map_some, Option.some.injEq] at ih
+      simp only [Option.map_some, latin1Decode, List.map_cons, Option.some.injEq, List.cons.injEq]
+      refine ⟨?_, ih⟩
+      have : (UInt8.ofNat c.toNat).toNat = c.toNat := by
+        rw [UInt8.toNat_ofNat']
+        exact Nat.mod_eq_of_lt hc
+      rw [this]
+      exact Char.ofNat_toNat c
+
+/-- with `accept_charset` ISO-8859-1 (or any codec that reads these bytes as Latin-1) a header of Latin-1 characters
+    reaches the parser unchanged -/
+theorem tryDecodeHeader_latin1 (P : Prims) (h : Str) (hl : ∀ c ∈ h, c.toNat < 256)
+    (hP : ∀ b, P.decode b = none ∨ P.decode b = some (latin1Decode b)) : tryDecodeHeader P h = some h := by
+  have hr := latin1_roundtrip h hl
+  unfold tryDecodeHeader tryDecode
+  cases he : latin1Encode h with
+  | none => simp [he] at hr
+  | some b =>
+    simp only [he, Option.map_some, Option.some.injEq] at hr
+    rcases hP b with h1 | h1 <;> simp [h1, hr]
+
+theorem digestMatches_prefix (x : Str) : digestMatches (cs! "Digest " ++ x) = true := by
+  simp [digestMatches, beforeSpace, List.takeWhile, pyLower, lowerChar]
+
+/-- **RFC 2617 client over an ISO-8859-1 wire, no hypothesis left about the header text**: the header is literally
+    `Digest ` followed by the serialised fields (all characters ≤ U+00FF). -/
+theorem digest_rfc2617_client_latin1 (P : Prims) (cfg : DigestCfg) (method : Str) (now : Int)
+    (fs : List Fld) (u ha1 ts : Str) (t : Int)
+    (hk : ∀ f ∈ fs, f.Good) (hl : ∀ c ∈ serialise fs, c.toNat < 256)
+    (hP : ∀ b, P.decode b = none ∨ P.decode b = some (latin1Decode b))
+    (hv : Valid (fieldsOf (fs.map Fld.pair))) (hu : (fieldsOf (fs.map Fld.pair)).username = some u)
+    (hq : (fieldsOf (fs.map Fld.pair)).qop = none ∨ (fieldsOf (fs.map Fld.pair)).qop = some (cs! "auth"))
+    (hget : getHa1 P cfg u = some ha1)
+    (hnonce : (fieldsOf (fs.map Fld.pair)).nonce = some (synthesizeNonce P cfg.realm cfg.key ts)) (hts : ':' ∉ ts)
+    (hint : pyInt ts = some t) (hfresh : t + 600 > now)
+    (hresp : (fieldsOf (fs.map Fld.pair)).response = some (rfcDigest P (fieldsOf (fs.map Fld.pair)) method ha1)) :
+    digestAuth P cfg method now (some (cs! "Digest " ++ serialise fs)) = .grant u := by
+  have hl' : ∀ c ∈ cs! "Digest " ++ serialise fs, c.toNat < 256 := by
+    intro c hc
+    rcases List.mem_append.mp hc with h | h
+    · have hall : ∀ d ∈ cs! "Digest ", d.toNat < 256 := by decide
+      exact hall c h
+    · exact hl c h
+  exact digest_rfc2617_client P cfg method now _ fs u ha1 ts t hk (digestMatches_prefix _)
+    (tryDecodeHeader_latin1 P _ hl' hP) hv hu hq hget hnonce hts hint hfresh hresp
 
 /-! ### 5xx -/
 
